@@ -208,9 +208,10 @@ def same(a, b, rtol=1e-8):
     a, b = np.asarray(a, float), np.asarray(b, float)
     if a.shape != b.shape:
         return False
-    return bool(np.all((np.abs(a - b) <= rtol * (1 + np.abs(b)))
-                       | (np.isnan(a) & np.isnan(b))
-                       | ((a == b))))
+    with np.errstate(invalid="ignore"):          # inf - inf
+        return bool(np.all((np.abs(a - b) <= rtol * (1 + np.abs(b)))
+                           | (np.isnan(a) & np.isnan(b))
+                           | ((a == b))))
 
 
 def compare_split(kind, before, after, n, v):
